@@ -48,7 +48,8 @@ def gen(rng, tier):
         ops.append([round(rng.uniform(0.5, dl - 15), 2), 'cancel_other'])
     ops.sort()
     return {'mode': 'b', 'runtime': runtime, 'ops': ops, 'kinds': [kind],
-            'delay_max': rng.choice([0.0, 0.05])}
+            'delay_max': rng.choice([0.0, 0.05]),
+            'close_time': rng.choice([0.0, 0.0, 0.3, 2.0])}
 
 
 class _RM(object):
@@ -78,6 +79,7 @@ def run(seed, scenario, trace=None, tier='quick'):
 
         def driver():
             root = sim.data['tmp']
+            sim.data['session_close_time'] = sc.get('close_time', 0.0)
             os.chdir(root)
             pid  = 'pilot.0000'
             side = C.Side(sim, pid)
@@ -156,7 +158,8 @@ def run(seed, scenario, trace=None, tier='quick'):
                     sim.now += op[2]
                     sim.log('clock_jump', dt=op[2])
             # wait for the agent to end (bounded: deadline + 40s)
-            limit = st['deadline'] + 40
+            # (a clock jump may have carried the clock far beyond the deadline)
+            limit = max(st['deadline'], sim.now) + 40
             while a._thread._sim_thread.state != K.DONE and sim.now < limit:
                 sim.sleep(1.0)
             sim.sleep(1.0)
